@@ -175,8 +175,13 @@ func (x *exec) judge() *verdict {
 	}
 
 	// Every call must come back (the schedule has finitely many deviations followed by reliable delivery).
+	// Not when a transport refused a send: an endpoint may close on that, its calls then fail and its peer's key
+	// update is never acknowledged. What the calls that DO report success mean is judged as always below.
 	for _, o := range x.ops {
 		done, err := o.op.Result()
+		if x.sc.FailNth > 0 {
+			continue
+		}
 		switch {
 		case !done:
 			key := "write-never-returned"
